@@ -187,6 +187,8 @@ example : (serve exExts exFs ["r".toList] "/d/catalog.xml".toList).2 = .listing 
 example : ∃ a ∈ (serve exExts exFs ["r".toList] "/a.csv.dds".toList).1, a.op = .handler := by decide
 example : contained ["r".toList] ["r".toList, "x".toList] = true ∧ contained ["r".toList] ["r2".toList] = false := by
   decide
+example : sortNames ["f10".toList, "f9".toList, "a".toList, "F".toList] =
+    ["F".toList, "a".toList, "f9".toList, "f10".toList] := by decide
 example : target ["r".toList] "/../../..//./r/x".toList = ["r".toList, "x".toList] := by decide
 
 end Pydap.C16
